@@ -418,7 +418,7 @@ func checkFault(ctx context.Context, s *sut.SUT, st *c09State, op c09Op, k int, 
 			return "retry-failed", fmt.Sprintf("%s: a transient deadlock error is retried by the handler, but the request failed: %v", where, err), ev, true
 		}
 		full := dumpC09(s, false)
-		if normRetry(full, pre) != normRetry(dOK, pre) {
+		if !retryEquivalent(full, dOK, pre) {
 			return "retry-differs", fmt.Sprintf("%s: after the handler's own retry the stored state differs from a fault-free run:\n%s", where, diffLines(dOK, full)), ev, true
 		}
 		return "", "", ev, true
@@ -500,6 +500,68 @@ func normRetry(d, pre string) string {
 	lines := strings.Split(d, "\n")
 	sort.Strings(lines)
 	return strings.Join(lines, "\n")
+}
+
+// retryEquivalent compares the dump after a handler-internal retry with the
+// fault-free one: same rows once new ids are anonymised, and every timestamp
+// within 1 ms (the first attempt consumed a few microsecond clock ticks).
+func retryEquivalent(a, b, pre string) bool {
+	old := map[string]bool{}
+	for _, u := range uuidRe.FindAllString(pre, -1) {
+		old[u] = true
+	}
+	type row struct {
+		shape string
+		ts    []time.Time
+	}
+	parse := func(d string) []row {
+		var rows []row
+		for _, l := range strings.Split(d, "\n") {
+			l = uuidRe.ReplaceAllStringFunc(l, func(u string) string {
+				if old[u] {
+					return u
+				}
+				return "<new-id>"
+			})
+			var ts []time.Time
+			shape := tsRe.ReplaceAllStringFunc(l, func(m string) string {
+				t, err := time.Parse(time.RFC3339Nano, m)
+				if err == nil {
+					ts = append(ts, t)
+				}
+				return "<ts>"
+			})
+			rows = append(rows, row{shape, ts})
+		}
+		sort.SliceStable(rows, func(i, j int) bool {
+			if rows[i].shape != rows[j].shape {
+				return rows[i].shape < rows[j].shape
+			}
+			for k := range rows[i].ts {
+				if k < len(rows[j].ts) && !rows[i].ts[k].Equal(rows[j].ts[k]) {
+					return rows[i].ts[k].Before(rows[j].ts[k])
+				}
+			}
+			return false
+		})
+		return rows
+	}
+	ra, rb := parse(a), parse(b)
+	if len(ra) != len(rb) {
+		return false
+	}
+	for i := range ra {
+		if ra[i].shape != rb[i].shape || len(ra[i].ts) != len(rb[i].ts) {
+			return false
+		}
+		for k := range ra[i].ts {
+			d := ra[i].ts[k].Sub(rb[i].ts[k])
+			if d < -time.Millisecond || d > time.Millisecond {
+				return false
+			}
+		}
+	}
+	return true
 }
 
 func dumpOKFor(op c09Op, dOK string, s *sut.SUT) string {
